@@ -353,6 +353,11 @@ func runC03(tier string) int {
 			scaled = append(scaled, p)
 		}
 	}
+	// ... and the dead-label programs (statements after a break that are reached through a label: in switch cases, in ifs
+	// inside cases whose body goes on, in shared bodies)
+	for i, sc := range deadLabelPrograms() {
+		scaled = append(scaled, engineProgram{Desc: fmt.Sprintf("dead-label program %d", i), Script: sc})
+	}
 	scaledDone := r.Parallel(uint64(len(scaled)), func(w int, i uint64) {
 		p := scaled[i]
 		scripts := []*model.Script{p.Script}
@@ -385,7 +390,7 @@ func runC03(tier string) int {
 	r.Assume("reference switch rule: a body-less entry shares the next entry that has a body; trailing body-less entries go to the statement after the switch; default runs iff no case value matches; bodies never fall through; break leaves the switch",
 		"var domain = every case value, its neighbours and 0 (always contains a non-matching value)")
 	return r.Finish(r.Get("evaluations"), r.Get("nontrivial"),
-		"every case list of length n (default at any position or absent) x every assignment of bodies from an 11-body alphabet (a body ending in a hand-written goto_if_set, empty, cmd, cmd+break, break+dead tail, if-break, while-with-break, nested switch, labelled body with goto into it, cmd+end, if-continue in loops; reduced alphabet at n>=5) x 8 contexts (alone, first/middle/last, in while, in do-while, in another switch, in infinite while, with case values written as constant expressions) x optimize on/off, each also written on a single source line and compiled with line markers (explored again whenever the marker-stripped output differs); plus every case list of length <= 2 (thorough 3) as the statement of a poryswitch case (4 forms) with a var and with AutoVar command operands; plus switches with K cases and switches nested K deep for every K up to the scale bounds; non-trivial = >= 2 entries and >= 3 distinct observable events")
+		"every case list of length n (default at any position or absent) x every assignment of bodies from an 11-body alphabet (a body ending in a hand-written goto_if_set, empty, cmd, cmd+break, break+dead tail, if-break, while-with-break, nested switch, labelled body with goto into it, cmd+end, if-continue in loops; reduced alphabet at n>=5) x 8 contexts (alone, first/middle/last, in while, in do-while, in another switch, in infinite while, with case values written as constant expressions) x optimize on/off, each also written on a single source line and compiled with line markers (explored again whenever the marker-stripped output differs); plus every case list of length <= 2 (thorough 3) as the statement of a poryswitch case (4 forms) with a var and with AutoVar command operands; plus the dead-label programs (labelled statements after a break in cases, also inside an if whose case body goes on); plus switches with K cases and switches nested K deep for every K up to the scale bounds; non-trivial = >= 2 entries and >= 3 distinct observable events")
 }
 
 // oneLine rewrites a generated source so that every statement sits on one line
